@@ -302,12 +302,12 @@ for _sk in (('.', '.'), ('a', '.')):
             for _st in (1, 3):
                 CELLS.append(Cell(f'K1s.quant_static[{"".join(_sk)},n={_n},greedy={_g:02b},static={_st:02b}]', _mk_quant(list(_sk), _n, _g, _st), 'K', FNM[:3],
                                   f'as K1.quant, with a STATIC tag on the quantifiers in mask {_st:02b} (static tags travel with every repetition and must not disturb backtracking or captures)',
-                                  tier='quick' if _g != 1 else 'thorough', budget=900, per_path=60))
+                                  tier='quick' if _g == 3 and _n == 3 else 'thorough', budget=900, per_path=60))
 for _n in (0, 1, 2, 3, 4):
     for _md in (0, 1, 2):
         CELLS.append(Cell(f'K1b.bare[n={_n},mid={("none", "b", "any")[_md]}]', _mk_bare(_n, _md), 'K', FNM[:3],
                           f'<Q0> {("", "M(x=b)", "M(x=...)")[_md]} <Q1> with Q0, Q1 symbolic over the 9 bare-class / instance forms of MQSTAR, MQPLUS, MQOPT (+ .NG); target = {_n} symbolic letters',
-                          tier='quick' if _n <= 2 or (_n == 3 and _md == 1) else 'thorough', budget=900, per_path=60))
+                          tier='quick' if _n <= 2 else 'thorough', budget=900, per_path=60))
 CELLS.append(Cell('K2.leaf', k2_leaf, 'K', FNM[3:], 'Call(Name(x), [Constant(i)]) vs pattern with Name(y), Constant(j): x, y symbolic letters, i, j symbolic ints in -3..3; int vs bool/str/float constants',
                   budget=600))
 for _wi, (_wn, _wf) in enumerate(WRAPS):
